@@ -12,6 +12,7 @@ import (
 	"net"
 	"os"
 	"strings"
+	"sync"
 	"time"
 
 	"verif/sim/simnet"
@@ -43,7 +44,7 @@ func worldWire(w *World) {
 	tlsOn := w.KnobBool("tls", 55)
 	custom := w.KnobBool("tls_custom_first_byte", 40)
 	tcpMux := w.KnobBool("tcp_mux", 60)
-	proto := []string{"tcp", "tcp", "websocket"}[w.Knob("protocol", 0, 2)]
+	proto := []string{"tcp", "tcp", "websocket", "quic"}[w.Knob("protocol", 0, 3)]
 	enc := w.KnobBool("proxy_enc", 50)
 	comp := w.KnobBool("proxy_comp", 30)
 	scfg := map[string]any{"bindAddr": "10.0.0.1", "bindPort": 7000, "vhostHTTPPort": 8080,
@@ -53,6 +54,24 @@ func worldWire(w *World) {
 		scfg["transport"].(map[string]any)["tls"] = map[string]any{"certFile": w.In.CertDir + "/server.crt", "keyFile": w.In.CertDir + "/server.key"}
 	}
 	tap := w.Net.TapListener("10.0.0.1:7000", 64<<20)
+	// QUIC: the clients reach the server's quic port; what crosses the path are datagrams, all of them recorded.
+	// QUIC carries its own TLS 1.3, whatever transport.tls says: nothing may be readable.
+	srvPort := 7000
+	var qmu sync.Mutex
+	var quicWire bytes.Buffer
+	if proto == "quic" {
+		scfg["quicBindPort"] = 7001
+		srvPort = 7001
+		tlsOn = true
+		simnet.UDPDeliverHook = func(to string, from *net.UDPAddr, data []byte) {
+			if to == "10.0.0.1:7001" || (from != nil && from.String() == "10.0.0.1:7001") {
+				qmu.Lock()
+				quicWire.Write(data)
+				quicWire.WriteByte(0)
+				qmu.Unlock()
+			}
+		}
+	}
 	if _, err := w.StartFrps(w.Frps, scfg); err != nil {
 		w.Fail("frps: %v", err)
 	}
@@ -71,7 +90,7 @@ func worldWire(w *World) {
 	ctr := map[string]any{"protocol": proto, "tcpMux": tcpMux, "connectServerLocalIP": "10.0.1.1", "poolCount": w.KnobPick("pool", 0, 1, 2),
 		"tls": map[string]any{"enable": tlsOn, "disableCustomTLSFirstByte": !custom}}
 	c1 := w.Net.NewNode("frpc1", "10.0.1.1")
-	if _, err := w.StartFrpc(c1, map[string]any{"serverAddr": "10.0.0.1", "serverPort": 7000, "loginFailExit": false, "user": "usr",
+	if _, err := w.StartFrpc(c1, map[string]any{"serverAddr": "10.0.0.1", "serverPort": srvPort, "loginFailExit": false, "user": "usr",
 		"auth": map[string]any{"token": token}, "transport": ctr, "proxies": proxies}); err != nil {
 		w.Fail("frpc: %v", err)
 	}
@@ -81,7 +100,7 @@ func worldWire(w *World) {
 	}
 	ctr2["connectServerLocalIP"] = "10.0.1.2"
 	c2 := w.Net.NewNode("frpc2", "10.0.1.2")
-	if _, err := w.StartFrpc(c2, map[string]any{"serverAddr": "10.0.0.1", "serverPort": 7000, "loginFailExit": false, "user": "usr",
+	if _, err := w.StartFrpc(c2, map[string]any{"serverAddr": "10.0.0.1", "serverPort": srvPort, "loginFailExit": false, "user": "usr",
 		"auth": map[string]any{"token": token}, "transport": ctr2,
 		"visitors": []map[string]any{{"name": "v", "type": "stcp", "serverName": nameMk + "-stcp", "secretKey": sk, "bindAddr": "10.0.1.2", "bindPort": 6600,
 			"transport": map[string]any{"useEncryption": enc, "useCompression": false}}}}); err != nil {
@@ -159,6 +178,15 @@ func worldWire(w *World) {
 		all.WriteByte(0)
 	}
 	wire := all.Bytes()
+	qmu.Lock()
+	wire = append(wire, quicWire.Bytes()...)
+	qmu.Unlock()
+	if proto == "quic" {
+		w.Probe("wire.quic_transport")
+		if quicWire.Len() == 0 {
+			viol("traffic", "nothing-recorded-on-quic-path", "the clients use QUIC but no datagram was seen between them and the server's quic port")
+		}
+	}
 	// also the concatenated per-connection streams (a marker may straddle two writes)
 	for _, id := range tap.Conns() {
 		wire = append(wire, tap.Stream(id, 0)...)
@@ -201,7 +229,7 @@ func worldWire(w *World) {
 			viol("encryption", "payload-in-clear-with-proxy-encryption", "tunnelled payload appears in clear although the proxies enable encryption (%s)", cfgDesc)
 		}
 	}
-	w.SetSample(map[string]any{"config": cfgDesc, "wire_bytes": tap.Bytes, "conns": len(tap.Conns())})
+	w.SetSample(map[string]any{"config": cfgDesc, "wire_bytes": tap.Bytes + quicWire.Len(), "conns": len(tap.Conns())})
 	w.Nontrivial()
 }
 
@@ -283,6 +311,10 @@ func wirePolicy(w *World) {
 	}
 	scfg := map[string]any{"bindAddr": "10.0.0.1", "bindPort": 7000, "auth": map[string]any{"token": token},
 		"transport": map[string]any{"tcpMux": false, "tls": tcfg}}
+	quicLn := w.KnobBool("quic_listener", 60)
+	if quicLn {
+		scfg["quicBindPort"] = 7001
+	}
 	env := w.newLcEnv(scfg, token, PeerOpts{Server: "10.0.0.1:7000", Token: token})
 	env.start()
 	caPEM, _ := os.ReadFile(cd + "/ca.crt")
@@ -295,6 +327,9 @@ func wirePolicy(w *World) {
 		c := env.newClient("p", 0)
 		c.Opts = o
 		c.Opts.Server, c.Opts.Token = "10.0.0.1:7000", token
+		if o.QUIC {
+			c.Opts.Server = "10.0.0.1:7001"
+		}
 		resp, err := c.login("")
 		defer c.Drop()
 		if err != nil {
@@ -332,6 +367,28 @@ func wirePolicy(w *World) {
 		}
 		if !cs.good && reply {
 			viol("policy", "unacceptable-certificate-answered-"+cs.what, "server with trusted CA answered a login from a peer with %s", cs.what)
+		}
+	}
+	// the QUIC listener shares the server's TLS configuration: with a trusted CA a peer without an acceptable
+	// certificate gets no protocol message interpreted there either
+	if quicLn {
+		w.Check("C05.server-tls-policy-quic")
+		for _, cs := range []struct {
+			what string
+			cfg  *tls.Config
+			good bool
+		}{
+			{"quic-no-client-cert", &tls.Config{InsecureSkipVerify: true}, !trusted},
+			{"quic-rogue-client-cert", &tls.Config{InsecureSkipVerify: true, Certificates: []tls.Certificate{rogueCert}}, !trusted},
+			{"quic-good-client-cert", &tls.Config{InsecureSkipVerify: true, Certificates: []tls.Certificate{goodCert}}, true},
+		} {
+			reply, ok := tryLogin(cs.what, PeerOpts{QUIC: true, TLSConfig: cs.cfg})
+			if cs.good && !(reply && ok) {
+				viol("policy", "acceptable-peer-refused-"+cs.what, "server force=%v trustedCa=%v refused %s", force, trusted, cs.what)
+			}
+			if !cs.good && reply {
+				viol("policy", "unacceptable-certificate-answered-"+cs.what, "server with trusted CA answered a login from a peer with %s", cs.what)
+			}
 		}
 	}
 	// every first byte a peer may send, followed by a plaintext login
